@@ -373,6 +373,12 @@ def check_fault(pid, tier, seed):
     wl = gen_crash_workloads(prof, ti, seed, eng.stats)
     base = we.make_jobs(wl, "fault", ((64, 128), (64, 96, 128, 512))[ti], ["ident"], seed, prefix="w", expand=True)
     base += we.make_jobs(wl[:(1, 6)[ti]], "fault", [512], ["bin"], seed, prefix="b", expand=True)
+    # batches larger than the buffers a writer may keep (first batch of a fresh segment / after a small one)
+    import checks_misc
+    bb = checks_misc.big_batch_jobs(seed, family="fault", expand=True)
+    for j in bb:
+        j["steps"] = [s for s in j["steps"] if s["op"] == "store" and not s.get("rel")][:2]
+    base += [j for k, j in enumerate(bb) if j["segSize"] == 8 << 20 and (ti == 1 or k % 4 in (0, 1))][: (4, 8)[ti]]
     for j in base:
         j["cont"] = [{"op": "store", "rel": True, "n": 1, "sz": [1]}]
     obs, io, st = we.run_jobs(base, eng.wd, "f0", need_io=True)
@@ -388,7 +394,7 @@ def check_fault(pid, tier, seed):
         for k, fl in enumerate(ps):
             # what follows the fault: one of the continuation shapes in turn, and always the two truncations
             # (a writer left in a wrong state by a failed append shows when the segment is force-sealed or dropped)
-            ts = [k % len(we.CONT_TEMPLATES)] + [t for t in (7, 8) if t != k % len(we.CONT_TEMPLATES) and (t == 7 or k % 3 == 0)]
+            ts = [k % len(we.CONT_TEMPLATES)] + [t for t in (7, 8, 11) if t != k % len(we.CONT_TEMPLATES) and (t in (7, 11) or k % 3 == 0)]
             for t in ts:
                 j = dict(byid[path])
                 j["id"] = "%s.p%d.t%d" % (path, k, t)
